@@ -58,6 +58,18 @@ type c07env struct {
 	markN        int
 	markCh       chan int
 	winOpened    bool
+	// handlers held at their hook point (ops hold / release): the one that is being started, and those waiting
+	holdArmed int32
+	holdTok   onet.TokenID
+	holdCur   *c07hold
+	holds     []*c07hold
+}
+
+// c07hold is one protocol message whose handler waits at tm.found / rt.unregistered until it is released
+type c07hold struct {
+	held    chan struct{} // closed when the handler has reached its hook point
+	release chan struct{} // closed to let it go on
+	done    chan struct{} // closed when the handler has returned
 }
 
 // c07Marker follows every envelope sent over the self-announcing connection: its arrival tells that the router has
@@ -395,9 +407,29 @@ func c07exec(c *h.Ctx, cs *h.Case) {
 				pm.To.ID() == e.winTok && atomic.CompareAndSwapInt32(&e.winArmed, 1, 0) {
 				e.winFn()
 			}
+			// a `hold` op: the first handler of that token that reaches one of the two points waits there
+			if pm, ok := key.(*onet.ProtocolMsg); ok && pm != nil && pm.To != nil && atomic.LoadInt32(&e.holdArmed) == 1 &&
+				pm.To.ID() == e.holdTok && atomic.CompareAndSwapInt32(&e.holdArmed, 1, 0) {
+				hd := e.holdCur
+				close(hd.held)
+				<-hd.release
+			}
 		}
 	})
-	defer func() { onet.VerifSetHook(nil); fix.Prepare = nil; fix.DoneAll() }()
+	defer func() {
+		// whatever is still held goes on before the fixtures are taken down
+		for _, hd := range e.holds {
+			close(hd.release)
+			select {
+			case <-hd.done:
+			case <-time.After(5 * time.Second):
+			}
+		}
+		e.holds = nil
+		onet.VerifSetHook(nil)
+		fix.Prepare = nil
+		fix.DoneAll()
+	}()
 	peer := &c07peer{e}
 	e.cl.Servers[0].RegisterProcessor(peer, onet.ResponseTreeMsgID, onet.SendRosterMsgID, onet.SendTreeMsgID)
 	e.ov.RegisterTree(e.trees["K"])
@@ -593,6 +625,7 @@ func c07exec(c *h.Ctx, cs *h.Case) {
 	for _, op := range cs.Ops[1:] {
 		tk := strings.Fields(op)
 		wantReplies := -1
+		suffix := ""
 		e.mu.Lock()
 		before := e.replies
 		e.mu.Unlock()
@@ -688,6 +721,65 @@ func c07exec(c *h.Ctx, cs *h.Case) {
 			} else {
 				c.Count("window=none")
 			}
+		case len(tk) == 5 && tk[1] == "hold":
+			// `hold <to> <from> <body>`: the protocol message is handled on a routine of its own up to its hook point
+			// (past the tree lookup, or between IsRegistered and Register) and waits there until `release`
+			typ, msg, _, _, ok := build([]string{"c07", "proto", tk[2], tk[3], tk[4]})
+			pm, isPM := msg.(*onet.ProtocolMsg)
+			if !ok || !isPM || e.wire || e.selfConn != nil {
+				cs.Impl = append(cs.Impl, "bad-op")
+				continue
+			}
+			hd := &c07hold{held: make(chan struct{}), release: make(chan struct{}), done: make(chan struct{})}
+			if pm.To != nil {
+				e.holdTok = pm.To.ID()
+				e.holdCur = hd
+				atomic.StoreInt32(&e.holdArmed, 1)
+			}
+			go func() {
+				defer close(hd.done)
+				e.ov.Process(&network.Envelope{ServerIdentity: e.cl.SI(0), MsgType: typ, Msg: msg})
+			}()
+			select {
+			case <-hd.held:
+				e.holds = append(e.holds, hd)
+				c.Count("hold=held")
+			case <-hd.done:
+				c.Count("hold=none") // no hook point on its way: handled to its end
+			case <-time.After(8 * time.Second):
+				fail("wedged", fmt.Sprintf("%q neither reaches a hook point nor returns", op))
+				return
+			}
+			atomic.StoreInt32(&e.holdArmed, 0)
+			suffix = fmt.Sprintf(" held=%d", len(e.holds))
+		case len(tk) == 3 && tk[1] == "expire":
+			// the cleaning routine removes the tree, unless an instance uses it
+			tn := tk[2]
+			if _, known := e.trees[tn]; !known && tn != "Z" {
+				cs.Impl = append(cs.Impl, "bad-op")
+				continue
+			}
+			if !(tn == "K" || tn == "Z" || (fix.RecOf(e.toks["fresh"+tn]) != nil && e.ov.VerifInstanceState(e.toks["fresh"+tn]) == "live")) &&
+				strings.HasPrefix(e.ov.VerifTreeState(e.treeID(tn)), "present") {
+				e.ov.VerifC06Expire(e.treeID(tn))
+			}
+			suffix = fmt.Sprintf(" held=%d", len(e.holds))
+		case len(tk) == 3 && tk[1] == "release":
+			i, cerr := strconv.Atoi(tk[2])
+			if cerr != nil || i < 0 || i >= len(e.holds) {
+				cs.Impl = append(cs.Impl, "bad-op")
+				continue
+			}
+			hd := e.holds[i]
+			e.holds = append(e.holds[:i:i], e.holds[i+1:]...)
+			close(hd.release)
+			select {
+			case <-hd.done:
+			case <-time.After(8 * time.Second):
+				fail("hang", fmt.Sprintf("%q: the released handler does not return", op))
+				return
+			}
+			suffix = fmt.Sprintf(" held=%d", len(e.holds))
 		case len(tk) == 5 && tk[1] == "proto", tk[1] == "reqtree", tk[1] == "resptree", tk[1] == "treemarshal", tk[1] == "reqroster", tk[1] == "sendroster":
 			typ, msg, want, _, ok := build(tk)
 			if !ok {
@@ -798,7 +890,23 @@ func c07exec(c *h.Ctx, cs *h.Case) {
 				cs.Fail("parked-message-stuck", fmt.Sprintf("after %q the server has tree %s and still holds %d protocol message(s) parked for it", op, t, n))
 			}
 		}
-		cs.Impl = append(cs.Impl, o)
+		cs.Impl = append(cs.Impl, o+suffix)
+	}
+	// whatever is still held goes on before the canaries
+	for len(e.holds) > 0 {
+		hd := e.holds[0]
+		e.holds = e.holds[1:]
+		close(hd.release)
+		select {
+		case <-hd.done:
+		case <-time.After(8 * time.Second):
+			fail("hang", "a held handler does not return when it is released at the end of the case")
+			return
+		}
+	}
+	if err := e.quiesce(); err != nil {
+		fail("wedged", fmt.Sprintf("before the canaries: %v", err))
+		return
 	}
 	// canaries: a legitimate run, tree request and roster request must still be served
 	e.selfConn = nil
@@ -1213,6 +1321,48 @@ func c07gen(c *h.Ctx, yield func(*h.Case)) {
 		}
 		c.Count(fmt.Sprintf("class=rwindow mode=%s inside=%d", m, nb))
 		yield(&h.Case{Class: "rwindow " + m, Ops: ops})
+	}
+	// several handlers held at once (three-way and wider interleavings): up to three protocol messages wait past their
+	// tree lookup / between IsRegistered and Register while envelopes are handled and unused trees are removed; they go
+	// on in any order. The first case is the schedule of the non-vacuity example of Props/C07.lean.
+	for i := 0; i < c.Pick(30, 800); i++ {
+		ops := []string{fmt.Sprintf("c07 state %s direct", states[r.Intn(3)])}
+		if i == 0 {
+			ops = []string{"c07 state idle direct", "c07 proto badprotoU member 1", "c07 resptree U roX good roX 1", "c07 hold freshU member 1", "c07 hold freshU member 2",
+				"c07 expire U", "c07 hold freshU member 1", "c07 proto freshU member 2", "c07 release 1", "c07 release 1", "c07 release 0", "c07 proto freshU member m1"}
+			c.Count("class=interleave corpus")
+			yield(&h.Case{Class: "interleave direct", Ops: ops})
+			continue
+		}
+		if r.Intn(4) > 0 {
+			ops = append(ops, "c07 proto "+[]string{"badprotoU", "badprotonewU"}[r.Intn(2)]+" member 1", "c07 resptree U roX good roX 1")
+		}
+		held, maxHeld := 0, 0
+		for n := 4 + r.Intn(8); n > 0; n-- {
+			switch x := r.Intn(10); {
+			case x < 4 && held < 3:
+				ops = append(ops, "c07 hold "+winA[r.Intn(len(winA))])
+				held++ // an upper bound: a message without hook point is not held (the model knows)
+			case x < 6:
+				ops = append(ops, "c07 expire "+[]string{"U", "U", "R", "K"}[r.Intn(4)])
+			case x < 8 && held > 0:
+				ops = append(ops, fmt.Sprintf("c07 release %d", r.Intn(held)))
+				held--
+			default:
+				ops = append(ops, "c07 "+winB[r.Intn(len(winB))])
+			}
+			if held > maxHeld {
+				maxHeld = held
+			}
+		}
+		for ; held > 0; held-- {
+			ops = append(ops, fmt.Sprintf("c07 release %d", r.Intn(held)))
+		}
+		if r.Intn(2) == 0 {
+			ops = append(ops, "c07 resptree U roX good roX 1", "c07 proto freshU member m2")
+		}
+		c.Count(fmt.Sprintf("class=interleave held<=%d", maxHeld))
+		yield(&h.Case{Class: "interleave direct", Ops: ops})
 	}
 	for i, n := range []int{40, 100, 33, 64}[:c.Pick(2, 4)] {
 		c.Count("class=flood")
